@@ -12,14 +12,22 @@ into the query text, (c) the names the real EVALUATOR asks for with the names th
 
 When the regenerated table breaks `generated_table_complete` for (kind K, field F), the run's
 cases whose real tree holds a symbol under F of a K node are used as the targeted search: the
-real validator must still reject when exactly that symbol is non-public."""
+real validator must still reject when exactly that symbol is non-public.
+
+Public-ness is a matter of symbol NAMES (what a query writes), never of the bucket KEY a symbol is
+stored under.  The harness' stores have symbols whose key differs from their name and coincides
+with the name of other symbols; the text oracle works from the public NAMES the harness asked for
+(not from what the store reports back), and every store configuration (a program of API calls,
+cfg_cases.txt) is also (d) run through the Coq model Ast/PublicCfg.v (GetPublicSymbols, registered
+map names, IsPublicSymbol on probe names) and (e) judged directly: IsPublicSymbol of an element of a
+registered map symbol must equal IsPublicSymbol of the map's name."""
 import json
 import os
 
 import vlib
 
 PID = "C20"
-FILES = ["theories/Properties/C20.v", "theories/Examples/C20Examples.v"]
+FILES = ["theories/Properties/C20.v", "theories/Examples/C20Examples.v", "theories/Examples/C20CfgExamples.v"]
 DOT = b"."
 
 
@@ -118,6 +126,68 @@ def model_table(model):
     return info
 
 
+def key_hint(names, sym_keys, pubs):
+    """say so when a symbol involved is stored under a key that differs from its name"""
+    out = []
+    for x in names:
+        base = x.split(DOT)[0].decode("utf-8", "replace")
+        key = sym_keys.get(base)
+        if key:
+            h = "symbol %r is stored under key %r" % (base, key)
+            if h not in " ".join(out):
+                h += " (%r %s a public name here)" % (key, "is" if key.encode() in pubs else "is not")
+                out.append(h)
+    return (" [" + "; ".join(out) + " - public-ness goes by NAME]") if out else ""
+
+
+def check_cfg(c, model, harness, sym_keys):
+    """store configurations: model Ast/PublicCfg.v vs the real store, and the map-element rule on the real store alone"""
+    cfg_path = os.path.join(c.work, "cfg_cases.txt")
+    if not os.path.exists(cfg_path):
+        return 0, []
+    cases = vlib.read_lines(cfg_path)
+    impl = vlib.read_lines(os.path.join(c.work, "cfg_impl.txt"))
+    modl = vlib.run_model(model, "cfg", cfg_path, os.path.join(c.work, "cfg_model.txt"))
+    assert len(cases) == len(impl) == len(modl), (len(cases), len(impl), len(modl))
+    disagreements = []
+    for case, i, m in zip(cases, impl, modl):
+        cf, fi = case.split(), i.split()
+        nops = int(cf[1])
+        ops = [cf[2 + 5 * k: 7 + 5 * k] for k in range(nops)]
+        probes, _ = read_list(cf, 2 + 5 * nops)
+        pretty = ["%s%s(%s%s%s)" % (o[0], "" if o[1] == "0" else "@child", unhex(o[2]).decode(),
+                                     ("" if o[3] in ("-", o[2]) else " key=" + unhex(o[3]).decode()),
+                                     (" linked" if o[0] == "K" and o[4] == "1" else "")) for o in ops]
+        rep = dict(cfgcase=case, program=pretty, store="child" if cf[0] == "1" else "store", impl=i, model=m)
+        if fi == ["E"]:
+            c.violation("C20:validator-failed", "configuring / probing the store panicked: %s" % pretty, rep)
+            continue
+        pub, pos = read_list(fi, 0)
+        maps, pos = read_list(fi, pos)
+        bits = "" if fi[pos] == "-" else fi[pos]
+        pubs, mapss = set(pub), set(maps)
+        bad = False
+        for x, b in zip(probes, bits):
+            want = is_public(x, pubs, mapss)
+            if want == (b == "1"):
+                continue
+            base = x.split(DOT)[0]
+            rep2 = dict(rep, probe=x.decode(), public=sorted(y.decode() for y in pub), map_symbols=sorted(y.decode() for y in maps))
+            if DOT in x and base in mapss and x not in pubs:
+                c.violation("C20:map-element-differs-from-map",
+                            "IsPublicSymbol(%r) = %s although the map symbol %r %s public (store configured by %s): an element of a map "
+                            "symbol must be public exactly when the map - by NAME - is" %
+                            (x.decode(), b == "1", base.decode(), "is" if base in pubs else "is not", " ".join(pretty)), rep2)
+            else:
+                c.violation("C20:is-public-symbol", "IsPublicSymbol(%r) = %s, but the store lists %s as public and has the map symbols %s (configured by %s)" %
+                            (x.decode(), b == "1", sorted(y.decode() for y in pub), sorted(y.decode() for y in maps), " ".join(pretty)), rep2)
+            bad = True
+            break
+        if not bad and i.split() != m.split():
+            disagreements.append((case, i, m, pretty))
+    return len(cases), disagreements
+
+
 def main(argv):
     c = vlib.Check(PID, argv)
     c.cov["trusted_base"] = [
@@ -126,6 +196,8 @@ def main(argv):
         "translators/asttable (go/packages + go/types): correct reading of struct fields, Accept bodies and of boltz/validate.go; "
         "statements it does not understand become AUnknown / k_unsupported and fail the obligation",
         "generic model Ast/Visitor.v (what a table-following visitor sees; IsPublicSymbol; first-error latch)",
+        "model Ast/PublicCfg.v of the store configuration API (addSymbol / AddMapSymbol / MakeSymbolPublic / GrantSymbols): symbol NAMES "
+        "decide, bucket keys are recorded and never read; compared with real stores on every configuration of the run",
         "the explicit exclusion list gen_aliases (AllOf/AnyOfSetExprNode.name, AnyOfSetExprNode.seekablePredicate): part of `shaped`, "
         "evaluated by the extracted model on every real tree of the run",
         "extraction (ExtrOcamlBasic only) + extraction/c20_driver.ml + drv_common.ml",
@@ -163,14 +235,14 @@ def main(argv):
     cases_path = os.path.join(c.work, "cases.txt")
     if c.replay:
         rp = json.load(open(c.replay))
-        if "case" not in rp:
+        if "case" not in rp and "cfgcase" not in rp:
             vlib.log("REPLAY: %s names a proof obligation / correspondence, not an input: %s" % (c.replay, rp.get("what", "")))
             vlib.log("  table complete=%s validator=%s gaps=%s" % (table["complete"], table["validator"], table["gaps"]))
             return c.finish()
         rin = os.path.join(c.work, "replay_in.txt")
         with open(rin, "w") as f:
-            f.write(rp["case"] + "\n")
-        args = [harness, "c20", "--out", c.work, "--replaycase", rin]
+            f.write(rp.get("cfgcase", rp.get("case")) + "\n")
+        args = [harness, "c20", "--out", c.work, "--replaycfg" if "cfgcase" in rp else "--replaycase", rin]
     else:
         args = [harness, "c20", "--seed", str(c.seed), "--tier", c.tier, "--out", c.work]
     rc, out = vlib.run(args, timeout=1800)
@@ -184,6 +256,10 @@ def main(argv):
     modl = vlib.run_model(model, "c20", cases_path, os.path.join(c.work, "model.txt"))
     assert len(cases) == len(impl) == len(modl) == len(oracle), (len(cases), len(impl), len(modl), len(oracle))
 
+    try:
+        sym_keys = json.load(open(os.path.join(c.work, "stats.json"))).get("symbol_keys", {})
+    except Exception:
+        sym_keys = {}
     distinct = set()
     disagreements = []
     nontrivial_rule_hits = 0
@@ -198,7 +274,9 @@ def main(argv):
         pubs, mapss = set(pub), set(maps)
         text = unhex(fo[1])
         text_syms, p2 = read_list(fo, 2)
-        evaluated, _ = read_list(fo, p2)
+        evaluated, p3 = read_list(fo, p2)
+        intended, _ = read_list(fo, p3)
+        intendeds = set(intended)
         replay_case = "%s %d %s %d %s" % (fo[1], len(text_syms), " ".join(x.hex() or "-" for x in text_syms),
                                           len(pub), " ".join(x.hex() or "-" for x in pub))
         replay_case = " ".join(replay_case.split())
@@ -220,7 +298,14 @@ def main(argv):
         mall, _ = read_list(fm, mp)
 
         # ---- the property's own oracle, from the identifiers of the query text
-        nonpublic = [x for x in text_syms if not is_public(x, pubs, mapss)]
+        # (from the public NAMES the harness asked the configuration API for - not from what the store reports)
+        if intendeds != pubs:
+            c.violation("C20:public-set-differs", "the store was configured (AddSymbol[WithKey] / AddFkSymbol[WithKey] / AddMapSymbol / MakeSymbolPublic) "
+                        "to have exactly the public symbol NAMES asked for, but GetPublicSymbols lacks %s and has %s in excess%s" %
+                        (sorted(x.decode() for x in intendeds - pubs), sorted(x.decode() for x in pubs - intendeds),
+                         key_hint(intendeds ^ pubs, sym_keys, pubs)), rep)
+            continue
+        nonpublic = [x for x in text_syms if not is_public(x, intendeds, mapss)]
         if nonpublic:
             nontrivial_rule_hits += 1
             distinct.add((fo[1], tuple(sorted(set(nonpublic)))))
@@ -234,12 +319,13 @@ def main(argv):
                             "validation accepts %r although %s is not public: the typed query no longer contains the symbol (the typer "
                             "dropped the sub-tree before validation)" % (text, sorted(set(x.decode() for x in dropped))), rep)
             else:
-                c.violation("C20:accepts-nonpublic", "validation accepts %r although %s is not public" %
-                            (text, sorted(set(x.decode() for x in nonpublic))), rep)
+                c.violation("C20:accepts-nonpublic", "validation accepts %r although %s is not public%s" %
+                            (text, sorted(set(x.decode() for x in nonpublic)), key_hint(nonpublic, sym_keys, pubs)), rep)
             continue
         if not nonpublic and iverdict != ["A"]:
-            c.violation("C20:rejects-public", "validation rejects %r (%s) although every referenced symbol is public" %
-                        (text, unhex(iverdict[1]) if len(iverdict) > 1 else "?"), rep)
+            c.violation("C20:rejects-public", "validation rejects %r (%s) although every referenced symbol is public%s" %
+                        (text, unhex(iverdict[1]) if len(iverdict) > 1 else "?",
+                         key_hint([unhex(iverdict[1])] if len(iverdict) > 1 else [], sym_keys, pubs)), rep)
             continue
         if nonpublic and iverdict[0] == "R" and unhex(iverdict[1]) not in set(nonpublic):
             c.violation("C20:names-wrong-symbol", "validation of %r rejects naming %r, which is not a non-public symbol of the query %s" %
@@ -272,18 +358,27 @@ def main(argv):
                     s = searched.setdefault(g, [0, 0])
                     s[0] += 1
 
+    n_cfg, cfg_disagreements = check_cfg(c, model, harness, sym_keys)
     if c.replay:
+        for name in ("cfg_cases.txt", "cfg_impl.txt", "cfg_model.txt"):
+            pth = os.path.join(c.work, name)
+            if os.path.exists(pth) and vlib.read_lines(pth):
+                vlib.log("REPLAY %s: %s" % (name, vlib.read_lines(pth)[0][:600]))
         for case, i, m in zip(cases, impl, modl):
             vlib.log("REPLAY case=%s\n  impl =%s\n  model=%s" % (case[:400], i, m))
-    c.cov["evaluations"] = len(cases)
+    c.cov["evaluations"] = len(cases) + n_cfg
+    c.cov["store_configurations"] = n_cfg
     c.cov["distinct_nontrivial"] = len(distinct)
-    c.cov["disagreements_checked"] = len(disagreements)
+    c.cov["disagreements_checked"] = len(disagreements) + len(cfg_disagreements)
     c.cov["rule"] = ("every lhs shape (each scalar type, map element, linked composite, anyOf/allOf/count over each set kind) x every "
                      "operator/literal template of the grammar's `operation` rule, also inside sub-queries; boolean forms, isEmpty, sort/skip/"
                      "limit; seeded random compositions (and/or/not/groups/sub-queries/sort). Each query under: all public, each referenced "
                      "symbol (and map base) alone non-public, dotted name published without its base, nothing public, random sets. Typed (Y) "
                      "and untyped (U) tree of each. Non-trivial: at least one referenced symbol non-public; distinct by (query text, set of "
-                     "non-public referenced symbols)")
+                     "non-public referenced symbols). Store symbols include maps / scalars / fks whose bucket key differs from their name and equals "
+                     "other symbols' names; for those also: symbol alone public, symbol vs the symbol named like its key public/non-public "
+                     "independently. Plus store configurations (programs of API calls incl. MakeSymbolPublic order, GrantSymbols; hand-written "
+                     "+ random over a 5-name pool) observed through GetPublicSymbols / registered map names / IsPublicSymbol on probe names")
     mid = len(cases) // 2
     c.cov["samples"] = [dict(case=cases[k][:600], impl=impl[k], model=modl[k][:300], oracle=oracle[k][:300])
                         for k in sorted(set((0, min(1, len(cases) - 1), mid, len(cases) - 1))) if cases]
@@ -304,6 +399,14 @@ def main(argv):
                     % (len(disagreements), why, i[:200], m[:200]),
                     dict(correspondence="Ast/Visitor.v (visit, validate, shaped) over Gen/GenAstTable.v vs ast.*.Accept / boltz.ValidateSymbolsArePublic",
                          theorems=["visit_covers_all_symbols", "validator_iff_all_public"], why=why, case_line=case[:3000], impl=i, model=m), no_input=True)
+    if cfg_disagreements and not c.violations:
+        case, i, m, pretty = cfg_disagreements[0]
+        c.violation("C20:store-config-correspondence",
+                    "model Ast/PublicCfg.v and the real store differ on %d store configurations (public names / registered map names / "
+                    "IsPublicSymbol of the probes), e.g. %s: impl %s model %s" % (len(cfg_disagreements), " ".join(pretty), i[:300], m[:300]),
+                    dict(correspondence="Ast/PublicCfg.v (cfg_run, cs_is_public) vs boltz BaseStore addSymbol / AddMapSymbol / MakeSymbolPublic / "
+                                        "GrantSymbols / IsPublicSymbol", theorems=["cfg_public_is_by_name", "cfg_map_element_public"],
+                         cfgcase=case, program=pretty, impl=i, model=m), no_input=True)
     if not proof_ok or table["complete"] is False or table["validator"] is False:
         # a proof obligation broke.  The run above IS the targeted search (every (kind, field) the parser can build is
         # covered with a lone non-public symbol below it); a concrete failing input has been reported above if one exists.
